@@ -39,6 +39,6 @@ Deliverables, for change N in {{1,2}} under /tmp/mutout/{pid}/N/ :
   "demo_package_dir": "pkg/...", "demo_run": "go test -run TestName ./pkg/...", "existing_tests_run": "...commands you ran and that passed..."}}
 
 Work method: read the relevant code, pick the two changes, make change 1, build, run the existing tests of touched packages, write and
-verify the demo (fails with change, passes after `git stash`/revert), save the diff, then `git checkout -- .` and repeat for change 2.
+verify the demo (fails with change, passes after reverting with `git apply -R` or `git checkout -- .`), save the diff, then `git checkout -- .` and repeat for change 2.
 At the end leave the worktree clean (git checkout -- . ; remove any demo test files you added to the tree) and reply with a short summary of both changes.
 """)
